@@ -327,6 +327,9 @@ func Inapplicable(r *ur.Result) bool {
 // variant, TLC trace validation against the property-level module, and
 // cross-variant response equality.
 func ExecConformance(c *Check, prop string, bins map[string]string, vs []Variant, r *rand.Rand, nOps int, m ExecMode) {
+	if c.Violations() >= 20 {
+		return // an earlier pass already settled the verdict
+	}
 	if m.Module == "" {
 		m.Module, m.Config = "GqlExecTrace", "GqlExecTrace.cfg"
 	}
@@ -442,6 +445,9 @@ func ExecConformance(c *Check, prop string, bins map[string]string, vs []Variant
 	type key struct{ id string }
 	respOf := map[string]map[string]string{} // scenario id -> variant -> canonical response
 	for vi, v := range vs {
+		if c.Violations() >= 20 {
+			break // the tree is broken beyond doubt; further configurations add nothing to the verdict
+		}
 		var scs []*Scenario
 		for _, t := range templ {
 			cp := *t
